@@ -80,6 +80,7 @@ def _verify_worker(args):
                'exits': rep.exits, 'wall_s': round(rep.wall_s, 3),
                'called': sorted(rep.called), 'inlined': sorted(rep.inlined),
                'abstracted': sorted(rep.used_abstract), 'cut': c.cut_before,
+               'opaque': sorted(getattr(rep, 'opaque', ())),
                'abstracted_sha': {k_: __import__('hashlib').sha256(v_.encode()).hexdigest()[:16] for k_, v_ in rep.abstracted_text.items()},
                'obligations': [], 'canary': None, 'family': modname}
         if rep.extracted is not None:
